@@ -93,6 +93,16 @@ def _rt_load(ctx, c, folder):
     out["setup_layout"] = g.currentLayout
     out["setup_t"] = t
     out["nprocs"] = list(g.getLayout(g.currentLayout).nprocs[:2])
+    # a grid that is in ANOTHER layout than the recorded one: the load must either be refused, or give the right field
+    others = [l for l in sim.STD_LAYOUTS if l != c["save_layout"]]
+    other = others[c["seed"] % len(others)]
+    h, _ = sim.setup_distrib(ctx.comm, c["cfg"], other, c["load_grid"], save=False)
+    h.getAllData()[:] = 0.0
+    try:
+        h.loadFromFile(folder, c["time"])
+        out["cross"] = ("loaded", sim.piece(h), h.currentLayout, other)
+    except (AssertionError, ValueError) as e:
+        out["cross"] = ("refused", type(e).__name__, None, other)
     return out
 
 
@@ -129,13 +139,26 @@ def rt_pred(c):
             n = int((G.view(np.uint64) != F.view(np.uint64)).sum())
             raise Violation("C18:roundtrip:" + name, "saved on %d ranks (%s), loaded on %d ranks: %d of %d values are not bit-identical (%s)"
                             % (Ps, c["save_layout"], Pl, n, G.size, name))
+    kinds = {r["cross"][0] for r in res}
+    if len(kinds) != 1:
+        raise Violation("C18:cross-layout:divergent", "loading a %s checkpoint into a grid in layout %s: ranks disagree: %s"
+                        % (c["save_layout"], res[0]["cross"][3], [r["cross"][:2] if r["cross"][0] == "refused" else "loaded" for r in res]))
+    cross = "refused"
+    if kinds == {"loaded"}:
+        cross = "loaded"
+        G = sim.assemble([r["cross"][1] for r in res], shape, "cross")
+        if not ga.bits_equal(G, F):
+            n = int((G.view(np.uint64) != F.view(np.uint64)).sum())
+            raise Violation("C18:cross-layout:wrong-field", "a %s checkpoint was accepted by a grid in layout %s (which now reports %s) but "
+                            "%d of %d values are not the saved global field" % (c["save_layout"], res[0]["cross"][3], res[0]["cross"][2], n, G.size))
     if any(r["setup_layout"] != c["want_layout"] for r in res):
         raise Violation("C18:setup-layout", "setupFromFile(layout=%s) returned a grid in layout %s" % (c["want_layout"], res[0]["setup_layout"]))
     if any(r["setup_t"] != c["time"] for r in res):
         raise Violation("C18:setup-time", "setupFromFile returned t=%r, checkpoint time %r" % (res[0]["setup_t"], c["time"]))
     return {"nontrivial": Ps != Pl, "labels": ["Psave=%d" % Ps, "Pload=%d" % Pl, c["save_layout"],
-                                              "same-layout" if c["save_layout"] == c["want_layout"] else "other-layout"],
-            "evals": 3}
+                                              "same-layout" if c["save_layout"] == c["want_layout"] else "other-layout",
+                                              "cross-layout-load-" + cross],
+            "evals": 4}
 
 
 # ----------------------------------------------------------------------------------------------
